@@ -38,8 +38,16 @@ def audit(lines):
             if any(th >= math.pi for th in rn):
                 continue
             near = any(abs(math.pi - th) < BAND[l.prec] for th in rn)
+            def judge_le(errs, m):
+                out = []
+                if not (errs[0] <= m['tol']):
+                    out.append((errs[0], m['tol'], 'log(exp(a)) != a'))
+                elif len(errs) > 1 and not (errs[1] <= m['tol']):
+                    # "uniformly in a ... arbitrarily small": relative to |a| itself, not to max(1, |a|)
+                    out.append((errs[1], m['tol'], 'log(exp(a)) != a relative to |a| (tiny tangent)'))
+                return out
             reqs.append((' '.join(['a_vec', l.grp, p] + l.ins + l.outs),
-                         dict(base, tol=TOL_NEAR_PI[l.prec] if near else TOL[l.prec], what='log(exp(a)) != a')))
+                         dict(base, judge=judge_le, tol=TOL_NEAR_PI[l.prec] if near else TOL[l.prec], what='log(exp(a)) != a')))
     return reqs
 
 
